@@ -1,14 +1,27 @@
 PROP = dict(
     drivers=['ArtIO'],
         gens=['art'],
-        lake=['IcyVerif.Props.C04'],
+        lake=['IcyVerif.Props.C04X'],
         ns='IcyVerif.C04',
-        theorems=['ansi_rt_partial₄', 'sgr_sync_all', 'insert_resolves', 'xterm_lookup_sound', 'subst_sound_all', 'trim_sound_all',
+        theorems=['ansi_rt', 'split_invisible', 'chunk_ok', 'push_no_underflow', 'ansi_rt_partial₄', 'sgr_sync_all', 'insert_resolves', 'xterm_lookup_sound', 'subst_sound_all', 'trim_sound_all',
                   'ansi_rt_partial₃', 'ansi_rt_partial₁', 'sgr_sync_16', 'subst_sound', 'trim_sound', 'csi_roundtrip', 'ansi_prep_core',
                   'showEq_img', 'showEq_blank', 'bom_counterexample'],
         harness='c04',
         design='DESIGN.md §4 C04',
-        technique='Lean 4 proof for ALL pictures of the theorems\' shape. ansi_rt_partial₄: ALL colours a buffer can hold - an arbitrary palette (any size, '
+        technique='Lean 4 proof for ALL pictures of the theorems\' shape. ansi_rt (FULL statement, the whole of Ansi::to_bytes except UTF-8 output / sixels / uploaded fonts): everything of '
+                  'ansi_rt_partial₄ below, plus output_line_length = None or Some(n) for EVERY n, plus skip_lines (rows left out with longer-terminal positioning: the conclusion covers every row that was '
+                  'written), plus font pages (any assignment of font slots to cells, every slot mapped by generate_ansi_font_map to an ANSI font page; ESC[0;n SP D switching and the RLE scan that stops at a '
+                  'font change are in the writer model), WITHOUT the former hypothesis "the file does not start with EF BB BF" (repaired: to_bytes puts ESC[0m in front of such output; the reset is shown to be '
+                  'a no-op for a fresh reader), and with the conclusion that to_bytes RETURNS (no unwrap panic in font_map under FontsOk, no usize underflow in push_result: push_no_underflow). The writer is '
+                  'modelled at the level push_result works at: a list of events (extend result / push_result / last_line_break = result.len() / end of scope) that does not depend on the line length, interpreted '
+                  'by WSt.step for a given limit (the end-of-row code sets last_line_break from the LOCAL vector\'s length - copied as it is). run_out: for every limit the output is the list of chunks handed to push_result with '
+                  'ESC[s CR LF ESC[u in front of SOME of them. chunk_ok: every chunk is a concatenation of whole control sequences / characters (atoms: CSI params final for any numbers, ESC[?33h/l, ESC[0;n SP D, cell '
+                  'characters incl. the ESC-prefixed ones, space, CR LF), each of which takes the parser from ground state to ground state and contains no CSI u - so a split never falls inside a sequence or between a character and its CSI n b. '
+                  'split_invisible: the ANSI parser is a congruence for SimR (same parser state, last character, rendition, palette, caret, geometry; rows that SHOW the same; saved cursor position unrelated) for every byte except CSI u '
+                  '(step_cong, all branches of ansiStep incl. DEL, REP, 24-bit colour); the split sequence read from the ground state restores the caret and only appends empty rows (Caret::lf on a file buffer), so a reader of chunks '
+                  'with splits in front of ANY of them stays SimR-related to a reader of the bare chunks; generate leaves nothing pending in result (pend_ansiA), so the bare chunks are exactly the bytes of the events, for which '
+                  'the row / cell induction (rows_compF, rows_longerF, genLine_itemsF: the proofs of ansi_rt_partial₄ redone over the event-level writer with font switches and skipped rows) gives the item rows; finish_view turns '
+                  'what the final screen shows into the loaded picture. ansi_rt_partial₄: ALL colours a buffer can hold - an arbitrary palette (any size, '
                   'the 16 base colours may be replaced), arbitrary colour indices resolved through it, hence DOS colours, xterm-256 colours (38;5;n / 48;5;n), any '
                   'other RGB value (CSI 1/0;r;g;b t) and bright backgrounds in blink / unlimited mode - x extended colours on / off x every combination of compression, cursor '
                   'forward, repeat sequences, preserved line length and longer-terminal positioning x 3 screen preparations x 3 control-character modes x 3 ice modes, '
@@ -42,7 +55,7 @@ PROP = dict(
              'oracle per cell: glyph, displayed foreground RGB (where the glyph has foreground pixels; bold low colour = bright colour), background RGB (where it has '
              'background pixels), blink flag; first failure of each key is minimised (greedy shrinker incl. palette compaction); distinct_nontrivial = distinct '
              '(options, picture)',
-        modelled='StringGenerator::get_color (AnsiState; DOS / xterm-256 / 24-bit colour decision), generate_cells (end-of-line trimming), generate (cell loop with RLE / CUF / '
+        modelled='Ansi::to_bytes as a whole (writeAnsiX): push_result with max_output_line_length (split sequence and its byte positions regenerated from the source), last_line_break bookkeeping incl. the assignment from result.len() at the end of a row, the usize underflow as explicit outcome, skip_lines in generate_cells / generate, generate_ansi_font_map (checksum matching abstracted: the harness hands over slot -> first ANSI page of equal checksum), font_map unwrap panic as explicit outcome, font switching, RLE stop at a font change, the EF BB BF guard; UNDER THE THEOREM ansi_rt all of it. Reader: CSI s / CSI u / CR LF as before. Earlier: StringGenerator::get_color (AnsiState; DOS / xterm-256 / 24-bit colour decision), generate_cells (end-of-line trimming), generate (cell loop with RLE / CUF / '
                  'REP substitution, font page fixed 0, longer-terminal positioning, line-break rule incl. the one-blank shortcut), '
                  'CONTROL_CHARS handling, screen_prep / screen_end, push_result with unlimited line length, number formatting; '
                  'ansi::Parser sub-language (SGR incl. parse_extended_colors 38/48;5;n and 38/48;2;r;g;b with palette insertion, CUF, REP, CUP, ED 2/3, ?33h/l, SCP/RCP, '
@@ -51,10 +64,10 @@ PROP = dict(
                  'CONTROL_CHARS) regenerated from the source. UNDER A THEOREM (ansi_rt_partial₄): all of the above for every palette and every colour index, all '
                  'combinations of compress / cursor forward / repeat sequences / preserve line length / longer-terminal positioning (up to 999 rows) / extended colours x 3 '
                  'screen preparations x 3 control-character modes x 3 ice modes, width 80 or SAUCE width 1..=132, up to 10^6 rows',
-        not_modelled='output_line_length (CSI s / CR LF / CSI u line splitting), skip_lines, modern_terminal_output (UTF-8; excluded by the '
-                     'property), font pages other than 0 (CSI 0;n SP D is accepted by the reader model, never produced by the writer model; the display oracle covers them on the real code), sixels, SAUCE record bytes '
+        not_modelled='modern_terminal_output (UTF-8; excluded by the property), fonts in slots >= 100 (encode_as_ansi uploads them with the file; the driver answers "unmodelled"), the font page of the LOADED cells (the reader model\'s cells carry no font page: CSI 0;n SP D is read and '
+                     'checked against ANSI_FONTS but not recorded - that the loaded cell has page font_map[page] is covered by the display oracle on the real code, which compares glyph bitmaps), custom fonts that match no ANSI font page (they cannot be carried by the format below slot 100; writer tie only), sixels, SAUCE record bytes '
                      '(C11; the harness passes width / height / iCE flag), the colour optimiser (C12; the harness hands the model the optimised picture). Not under a '
-                     'theorem: files that start with EF BB BF (known finding), the overline / invisible attribute bits (never emitted), blinking cells in iCE mode (iCE has '
+                     'theorem: the overline / invisible attribute bits (never emitted), blinking cells in iCE mode (iCE has '
                      'no blink), colour indices with bit 31 set on the READER side (never produced). The proof of ansi_rt_partial₄ exposed two writer defects on custom base '
                      'palettes (both repaired): SGR 1 after a palette slot below 8 that holds another DOS colour; blanks on colour 0 skipped / trimmed when colour 0 is not black',
         thorough_exhaustive=True,
